@@ -251,10 +251,30 @@ def nowT : Nat := 1000000
 /-- a `W` of the harness moves the clock past the life of the `s` cookies -/
 def waitStep : Nat := 1000
 
+/-- one tick of a ticked history in model time (the whole history stays far below the hour of `f` / `p`) -/
+def tickStep : Nat := 10
+
 def expOf (s : String) : Option (Option Nat) :=
   match s with
   | "n" => some none | "p" => some (some (nowT - 3600)) | "f" => some (some (nowT + 3600))
-  | "s" => some (some (nowT + waitStep / 2)) | _ => none
+  | "s" => some (some (nowT + waitStep / 2))
+  | "t1" => some (some (nowT + 1 * tickStep)) | "t2" => some (some (nowT + 2 * tickStep))
+  | "t3" => some (some (nowT + 3 * tickStep)) | "t4" => some (some (nowT + 4 * tickStep))
+  | "t5" => some (some (nowT + 5 * tickStep)) | "t6" => some (some (nowT + 6 * tickStep))
+  | "t7" => some (some (nowT + 7 * tickStep)) | "t8" => some (some (nowT + 8 * tickStep))
+  | "t9" => some (some (nowT + 9 * tickStep))
+  | _ => none
+
+/-- `T:k` of the harness: the clock stands in the middle of tick `k` (a `t<k>` cookie expires at the start of tick `k`) -/
+def tickOp (s : String) : Option Nat :=
+  match s.splitOn ":" with
+  | ["T", k] => match k.toNat? with
+    | some n => if 1 ≤ n && n ≤ 12 && toString n == k then some n else none
+    | none => none
+  | _ => none
+
+def isWaitOp (s : String) : Bool := s == "W" || (tickOp s).isSome
+def waitObs (s : String) : String := if s == "W" then "w" else "t"
 
 def plainOK (s : Bytes) : Bool := s.all fun c => isAlpha c || isDigit c
 def hostOK (s : Bytes) : Bool :=
@@ -379,10 +399,22 @@ def timedOf (t : Nat) : List String → List String → Option (List (Nat × Jar
   | "W" :: ops, "w" :: os => timedOf (t + waitStep) ops os
   | op :: ops, o :: os => do
     if op == "W" then none
+    if let some k := tickOp op then
+      -- the clock only moves forward
+      if o != "t" || nowT + k * tickStep + tickStep / 2 ≤ t then none
+      return ← timedOf (nowT + k * tickStep + tickStep / 2) ops os
     let x ← parseJarOp op
     let r ← timedOf t ops os
     some ((t, x) :: r.1, o :: r.2)
   | _, _ => none
+
+/-- some stored cookie's expiry lies between the times of two operations of the history -/
+def expiredBetween (hist : List (Nat × JarOp)) : Bool :=
+  let exps := hist.flatMap fun e => match e.2 with
+    | .set _ c => c.expiry.toList
+    | _ => []
+  let times := hist.map (·.1)
+  exps.any fun x => times.any (· < x) && times.any (x < ·)
 
 def handleJar (id opsS impl : String) : Except String Verdict := do
   let opStrs := if opsS == "-" then [] else opsS.splitOn ";"
@@ -392,13 +424,19 @@ def handleJar (id opsS impl : String) : Except String Verdict := do
   let implParts := if impl == "-" then [] else impl.splitOn "|"
   if implParts.length != opStrs.length then throw "outside-domain: jar ops / observations" else
   -- the op list alone fixes the times; observations are aligned with it
-  let some (hist, _) := timedOf nowT opStrs (opStrs.map fun o => if o == "W" then "w" else "") | throw "outside-domain: jar ops"
+  let some (hist, _) := timedOf nowT opStrs (opStrs.map fun o => if isWaitOp o then waitObs o else "") | throw "outside-domain: jar ops"
   let timed := opStrs.any (· == "W")
+  let ticked := opStrs.any fun o => (tickOp o).isSome
   if (opStrs.filter (· == "W")).length > 1 then throw "outside-domain: more than one wait" else
+  if timed && ticked then throw "outside-domain: W and T in one history" else
   let modelObs := runJarT lifo hist JarState.init
   let rec weave : List String → List JarObs → List (Nat × JarOp) → List String
     | "W" :: ops, os, h => "w" :: weave ops os h
-    | _ :: ops, o :: os, e :: h => renderJarObs e.2 o :: weave ops os h
+    | op :: ops, os, h =>
+      if (tickOp op).isSome then "t" :: weave ops os h
+      else match os, h with
+        | o :: os, e :: h => renderJarObs e.2 o :: weave ops os h
+        | _, _ => []
     | _, _, _ => []
   let modelS := if opStrs.isEmpty then "-" else "|".intercalate (weave opStrs modelObs hist)
   let implObs : Option (List JarObs) :=
@@ -419,7 +457,9 @@ def handleJar (id opsS impl : String) : Except String Verdict := do
     | _ => false
   pure { id := id, modelObs := modelS, implObs := impl, spec := spec, known := known,
          tags := ["jar"] ++ (if nontriv then ["nt-jar"] else []) ++ (if k1 then ["k1-seen"] else []) ++
-                 (if inRegion then ["k1-region"] else ["k1-free"]) ++ (if timed then ["nt-jar-timed"] else []) }
+                 (if inRegion then ["k1-region"] else ["k1-free"]) ++ (if timed then ["nt-jar-timed"] else []) ++ (if ticked then ["nt-jar-ticked"] else []) ++
+                 -- a ticked history in which a lookup found a cookie that a later lookup of the same host no longer finds
+                 (if ticked && expiredBetween hist then ["jar-expired-between-ops"] else []) }
 
 /-! ### schedules -/
 
